@@ -160,6 +160,35 @@ def run(ctx: Ctx) -> None:
             directed.append(("directed:value-wire-into-nested-funcdefn", json.loads(d.hugr.to_json())))
         except Exception:  # noqa: BLE001  (a refusal is what the property wants)
             pass
+        # ... the same two or more levels below the function: inside a nested DFG, a conditional case, a tail loop of its body
+        for where in ("nested", "case", "loop"):
+            try:
+                from hugr import tys
+                from hugr.build.dfg import Dfg
+                from hugr.std.logic import Not
+                d = Dfg(tys.Bool)
+                (outer,) = d.inputs()
+                f = d.define_function("inner", [tys.Bool], parent=d.parent_node)
+                (fb,) = f.inputs()
+                if where == "nested":
+                    n = f.add_nested()
+                    n.set_outputs(n.add_op(Not, outer))
+                    f.set_outputs(n.parent_node[0])
+                elif where == "case":
+                    c = f.add_conditional(fb)
+                    for i in (0, 1):
+                        k = c.add_case(i)
+                        k.set_outputs(k.add_op(Not, outer))
+                    f.set_outputs(c.parent_node[0])
+                else:
+                    tl = f.add_tail_loop([], [fb])
+                    x = tl.add_op(Not, outer)
+                    tl.set_loop_outputs(x, tl.inputs()[0])
+                    f.set_outputs(tl.parent_node[0])
+                d.set_outputs()
+                directed.append((f"directed:value-wire-into-nested-funcdefn-{where}", json.loads(d.hugr.to_json())))
+            except Exception:  # noqa: BLE001
+                pass
         if directed:
             v3, res3 = judge(directed, wd, "directed")
             for n, dd in directed:
